@@ -237,21 +237,24 @@ func (s *Session) onRequest(req *Request) (err error) {
 func (s *Session) onDescribe(resp *Response, req *Request) {
 
 	// TODO: 检查 accept 中的类型是否包含 sdp
-	s.url = req.URL
+	// 被拒绝的请求不能改变会话已有的 url 和 path，检查通过后才设置
+	path := s.path
 	if s.wsconn == nil { // websocket访问的路径有ws://路径表示
-		s.path = utils.CanonicalPath(req.URL.Path)
+		path = utils.CanonicalPath(req.URL.Path)
 	}
 
-	stream := media.GetOrCreate(s.path)
+	stream := media.GetOrCreate(path)
 	if stream == nil {
 		resp.StatusCode = StatusNotFound
 		return
 	}
 
-	if !s.checkPermission(auth.PullRight) {
+	if !s.checkPathPermission(path, auth.PullRight) {
 		resp.StatusCode = StatusForbidden
 		return
 	}
+	s.url = req.URL
+	s.path = path
 
 	// 从流中取 sdp
 	sdpRaw := stream.Sdp()
@@ -278,10 +281,10 @@ func (s *Session) onAnnounce(resp *Response, req *Request) {
 		return
 	}
 
-	s.url = req.URL
-	s.path = utils.CanonicalPath(req.URL.Path)
+	// 被拒绝的请求不能改变会话已有的 url 和 path，检查通过后才设置
+	path := utils.CanonicalPath(req.URL.Path)
 
-	if !s.checkPermission(auth.PushRight) {
+	if !s.checkPathPermission(path, auth.PushRight) {
 		resp.StatusCode = StatusForbidden
 		return
 	}
@@ -293,6 +296,8 @@ func (s *Session) onAnnounce(resp *Response, req *Request) {
 		return
 	}
 
+	s.url = req.URL
+	s.path = path
 	s.mode = RecordSession // 标记为录像会话
 }
 
@@ -472,6 +477,10 @@ func (s *Session) onPlay(resp *Response, req *Request) (err error) {
 }
 
 func (s *Session) checkPermission(right auth.AccessRight) bool {
+	return s.checkPathPermission(s.path, right)
+}
+
+func (s *Session) checkPathPermission(path string, right auth.AccessRight) bool {
 	if s.authMode == auth.NoneAuth {
 		return true
 	}
@@ -480,7 +489,7 @@ func (s *Session) checkPermission(right auth.AccessRight) bool {
 		return false
 	}
 
-	return s.user.ValidatePermission(s.path, right)
+	return s.user.ValidatePermission(path, right)
 }
 
 func (s *Session) checkAuth(r *Request) (user *auth.User, err error) {
